@@ -19,6 +19,7 @@ import (
 	"github.com/tjfoc/gmsm/sm3"
 	"github.com/tjfoc/gmsm/sm4"
 	"github.com/tjfoc/gmsm/verifsim/pki"
+	"github.com/tjfoc/gmsm/verifsim/ref/reftls"
 	"github.com/tjfoc/gmsm/verifsim/simkit"
 	"github.com/tjfoc/gmsm/x509"
 )
@@ -28,7 +29,7 @@ import (
 // equals the result of the same code run alone; linearizability (porcupine);
 // the Go race detector evaluated on the simulated interleaving (race build).
 
-var concFaults = []string{"preempt", "lock-contended", "curve-first-use", "close-during-write", "rotation-during-handshake", "pct-schedule", "dense-preemption"}
+var concFaults = []string{"preempt", "lock-contended", "curve-first-use", "close-during-write", "rotation-during-handshake", "pct-schedule", "dense-preemption", "transport-write-blocks"}
 var concReach = []string{"block-shared", "pkg-sign", "pkg-encrypt", "pkg-hash", "pkg-sm4", "pkg-parse", "pkg-pkcs7-ber", "pkg-verify-chain", "cache-linearizable", "cache-eviction", "pool-verify", "conn-linearizable", "conn-close-raced", "write-after-close-failed", "config-handshakes", "config-rotated", "config-resumed", "config-followup-resumption-owed", "config-rotation-inside-ticket-code", "conn-multi-record-writes", "tasks>=8", "tasks>=16", "porcupine-unknown"}
 
 func init() {
@@ -776,7 +777,21 @@ func runConcConn(c *simkit.Choice, r *simkit.Rec) {
 		budget = 80000000 // several 16 KiB records through statement-instrumented record code
 	}
 	s := simkit.NewSim(c, pol, budget)
-	a, b := s.NewConnPair("cli", "srv", simkit.NetCfg{}, simkit.NetCfg{})
+	// a slow peer: small finite windows make transport writes block half-way, so
+	// that other tasks of the same endpoint run while a flight is being written
+	var netC, netS simkit.NetCfg
+	netC.Capture = true
+	// late writer: the server-side writer makes its first call only once the
+	// client's ChangeCipherSpec is on the wire (plus a drawn number of yields), i.e.
+	// while the server is about to send, or is sending, its last flight
+	lateWriter := c.Bool(1, 2, simkit.LScen)
+	lateExtra := c.Range(0, 400, simkit.LScen)
+	if c.Bool(1, 3, simkit.LScen) {
+		netC.Window = c.Range(8, 300, simkit.LScen)
+		netS.Window = c.Range(8, 300, simkit.LScen)
+		r.Fault(idx(concFaults, "transport-write-blocks"))
+	}
+	a, b := s.NewConnPair("cli", "srv", netC, netS)
 	ccfg := &gmtls.Config{GMSupport: gmtls.NewGMSupport(), Rand: entC, Time: simTime(s, 0), RootCAs: pki.Pool("caA"), ServerName: "server.sim", CipherSuites: []uint16{suite}, SessionTicketsDisabled: true}
 	scfg := &gmtls.Config{GMSupport: gmtls.NewGMSupport(), Rand: entS, Time: simTime(s, 0), Certificates: gmServerCerts("srv-sign", "srv-enc"), CipherSuites: []uint16{suite}, SessionTicketsDisabled: true}
 	conns := [2]*gmtls.Conn{gmtls.Client(a, ccfg), gmtls.Server(b, scfg)}
@@ -875,6 +890,24 @@ func runConcConn(c *simkit.Choice, r *simkit.Rec) {
 				wdone = append(wdone, f)
 				s.Spawn(fmt.Sprintf("%s-w%d", []string{"cli", "srv"}[side], w), side, func() {
 					defer f.Set()
+					if side == 1 && lateWriter {
+						for k := 0; k < 200000; k++ {
+							recs, _ := reftls.ParseRecords(a.WrPipe().Captured())
+							seen := false
+							for _, rc := range recs {
+								if rc.Type == reftls.RecCCS {
+									seen = true
+								}
+							}
+							if seen {
+								break
+							}
+							simkit.Yield(-27)
+						}
+						for k := 0; k < lateExtra; k++ {
+							simkit.Yield(-27)
+						}
+					}
 					for _, buf := range wp[side][w].bufs {
 						h := slot(side)
 						if h == nil {
@@ -883,6 +916,7 @@ func runConcConn(c *simkit.Choice, r *simkit.Rec) {
 						h.in = connIn{0, buf}
 						h.call = int64(s.Seq())
 						n, err := conn.Write([]byte(buf))
+						a.LiftWindows() // the slow-peer phase ends with the first completed application call
 						h.out = connOut{err: err != nil}
 						h.ret = int64(s.Seq())
 						if err == nil && n != len(buf) {
@@ -908,6 +942,7 @@ func runConcConn(c *simkit.Choice, r *simkit.Rec) {
 						h.in = connIn{kind: 1}
 						h.call = int64(s.Seq())
 						n, err := conn.Read(buf)
+						a.LiftWindows()
 						h.ret = int64(s.Seq())
 						switch {
 						case n > 0:
@@ -1168,6 +1203,38 @@ func concSlot(n *int, h []connOpRec) *connOpRec {
 	return p
 }
 
+// keyLogProbe is a KeyLogWriter that notices concurrent entry. Its own state is
+// atomic except the buffer, which only a correctly serialised caller touches
+// one at a time (so the race detector reports the library, not the probe).
+type keyLogProbe struct {
+	inside   atomic.Int64
+	overlaps atomic.Int64
+	buf      bytes.Buffer
+}
+
+func (k *keyLogProbe) Write(p []byte) (int, error) {
+	if k.inside.Add(1) > 1 {
+		k.overlaps.Add(1)
+	}
+	simkit.Yield(-26) // a writer that takes a moment
+	n, err := k.buf.Write(p)
+	k.inside.Add(-1)
+	return n, err
+}
+
+func (k *keyLogProbe) malformed() string {
+	for _, ln := range bytes.Split(bytes.TrimSuffix(k.buf.Bytes(), []byte("\n")), []byte("\n")) {
+		f := bytes.Fields(ln)
+		if len(ln) == 0 {
+			continue
+		}
+		if len(f) != 3 || string(f[0]) != "CLIENT_RANDOM" || len(f[1]) != 64 || len(f[2]) != 96 {
+			return fmt.Sprintf("line %q", ln)
+		}
+	}
+	return ""
+}
+
 // ---- conc-config: one Config serving simultaneous connections ----------
 
 func runConcConfig(c *simkit.Choice, r *simkit.Rec) {
@@ -1181,7 +1248,10 @@ func runConcConfig(c *simkit.Choice, r *simkit.Rec) {
 	r.Config = fmt.Sprintf("config/mode%d", mode)
 	r.Sig(uint64(nconn) | uint64(mode)<<4 | 6<<20)
 	s := simkit.NewSim(c, pol, 8000000)
-	scfg := &gmtls.Config{Rand: simkit.NewStream(ent + 1), Time: simTime(s, 0)}
+	// the caller's key log writer: calls must be serialised by the library (as
+	// crypto/tls documents); klog counts re-entrancy with atomics and keeps the lines
+	klog := &keyLogProbe{}
+	scfg := &gmtls.Config{Rand: simkit.NewStream(ent + 1), Time: simTime(s, 0), KeyLogWriter: klog}
 	cache := gmtls.NewLRUClientSessionCache(2)
 	// own caches: every client keeps the ticket of its own connection, and offers it
 	// in a follow-up connection once everything concurrent is over
@@ -1426,6 +1496,14 @@ func runConcConfig(c *simkit.Choice, r *simkit.Rec) {
 		if out[i].resumed {
 			r.Reach(idx(concReach, "config-resumed"))
 		}
+	}
+	if n := klog.overlaps.Load(); n > 0 {
+		r.Violate("result-differs", "gmtls.Config/KeyLogWriter", fmt.Sprintf("the caller's KeyLogWriter was entered by %d calls while another call was still inside it (\"Use of KeyLogWriter is serialised\")", n))
+		return
+	}
+	if bad := klog.malformed(); bad != "" {
+		r.Violate("result-differs", "gmtls.Config/KeyLogWriter", "key log damaged: "+bad)
+		return
 	}
 	if ownCache {
 		for i := range follow {
